@@ -32,6 +32,7 @@ def check(run):
         F = run.facts(cfg)
         run.guard("C18.1.permission-formula", cfg, lambda: rule_formula(run, F, cfg))
         run.guard("C18.2.gate-provenance", cfg, lambda: rule_gate(run, F, cfg))
+        run.guard("C18.2.gate-provenance", cfg + "/merge", lambda: rule_mask_merge(run, F, cfg))
         run.guard("C18.4.escape-table", cfg, lambda: rule_escape(run, F, cfg))
         run.guard("C18.5.invocation", cfg, lambda: rule_invocation(run, F, cfg))
         b = run.borrow("C16", only=r"inject_script", why="scriptlet exceptions are applied after all injections are collected")
@@ -319,3 +320,17 @@ def rule_invocation(run, F, cfg):
             rep.append((c.expr_operand(t["args"][1]), c.expr_operand(t["args"][2])))
     run.ob("C18.5.invocation", "template-dollar-doubled", ("'$'", '"$$"') in rep,
            f"patch_template_scriptlet doubles '$' in each argument before Regex::replace ({rep})", config=cfg)
+
+
+def rule_mask_merge(run, F, cfg):
+    """the permission handed to the scriptlet gate for an injection is the mask of ONE rule list: combining the
+    masks of several lists (OR) can grant bits that no single list was given"""
+    f = F.fn("cosmetic_filter_cache::CosmeticFilterCache::hostname_cosmetic_resources")
+    merges = []
+    for g in [f] + [c for n, c in F.fns.items() if n.startswith(f.name + "::")]:
+        for b, t in g.calls(r"^<resources::PermissionMask as std::ops::(BitOr|BitOrAssign)"):
+            merges.append((g.name.split("::")[-1], g.loc(b)))
+    run.ob("C18.2.gate-provenance", "injection-mask-of-one-list", not merges,
+           "hostname_cosmetic_resources never combines the PermissionMasks of different rules for the same `+js(...)` "
+           f"text (found {merges}): with `|=`, lists granted 0b01 and 0b10 together inject a scriptlet that requires 0b11",
+           site=merges[0][1] if merges else f.loc(0), config=cfg)
